@@ -407,7 +407,7 @@ def dict_type_table(repo: Repo) -> List[Tuple[int, str, int, R, V]]:
     return out
 
 
-def shrink_inputs() -> List[Tuple[V, ...]]:
+def shrink_inputs(max_size: int = 3) -> List[Tuple[V, ...]]:
     A, B = R("anon_td", id=K("A")), R("anon_td", id=K("B"))
     i, s_ = S("builtin:int"), S("builtin:str")
     li, ls, lA, lB = generic("List", i), generic("List", s_), generic("List", A), generic("List", B)
@@ -416,7 +416,7 @@ def shrink_inputs() -> List[Tuple[V, ...]]:
     dE = generic("Dict", ANY, ANY)  # an observed empty dict
     base = [A, B, i, s_, li, ls, lA, lB, di, tA, dE]
     out: List[Tuple[V, ...]] = [()]
-    for n in (1, 2, 3):
+    for n in range(1, max_size + 1):
         for combo in itertools.combinations_with_replacement(range(len(base)), n):
             out.append(tuple(base[j] for j in combo))
     return out
